@@ -67,7 +67,35 @@ template <class I> void regT(const std::string& tn) {
   reg<I, 0, md::layout_right>("right", tn); reg<I, 1, md::layout_right>("right", tn); reg<I, 2, md::layout_right>("right", tn); reg<I, 3, md::layout_right>("right", tn);
   reg<I, 0, md::layout_stride>("stride", tn); reg<I, 1, md::layout_stride>("stride", tn); reg<I, 2, md::layout_stride>("stride", tn); reg<I, 3, md::layout_stride>("stride", tn);
 }
+// ---- extents with mixed static / dynamic patterns, built from all values or from the dynamic values only, as an integer pack or a
+//      std::array (C++14: the comma / and folds of the constructors are the emulations of macros.hpp)
+template <class E> std::string obsExt(const E& e) {
+  std::string s = "rank=" + std::to_string(E::rank()) + " rd=" + std::to_string(E::rank_dynamic()) + " se=";
+  if (E::rank() == 0) s += "-";
+  for (size_t k = 0; k < E::rank(); k++) { if (k) s += ","; s += E::static_extent(k) == md::dynamic_extent ? std::string("D") : std::to_string(E::static_extent(k)); }
+  return s + " e=" + extList(e);
+}
+template <class E, class S, size_t N> struct FromPack;
+template <class E, class S> struct FromPack<E, S, 0> { static E make(const LL&) { return E(); } };
+template <class E, class S> struct FromPack<E, S, 1> { static E make(const LL& v) { return E((S)v[0]); } };
+template <class E, class S> struct FromPack<E, S, 2> { static E make(const LL& v) { return E((S)v[0], (S)v[1]); } };
+template <class E, class S> struct FromPack<E, S, 3> { static E make(const LL& v) { return E((S)v[0], (S)v[1], (S)v[2]); } };
+template <class E, class S> struct FromPack<E, S, 4> { static E make(const LL& v) { return E((S)v[0], (S)v[1], (S)v[2], (S)v[3]); } };
+template <class E, class S, size_t N> E fromArray(const LL& v) { std::array<S, N> a; for (size_t k = 0; k < N; k++) a[k] = (S)v[k]; return E(a); }
+template <class E, class S> void regE(const std::string& tn, const std::string& pat) {
+  const std::string base = "ext:" + tn + ":" + tn + ":" + pat;
+  registry()[base + ":pack_all"] = [](const Op& o) { LL v = parseList(o.get("vals")); if (v.size() != E::rank()) return std::string("bad-op"); return obsExt(FromPack<E, S, E::rank()>::make(v)); };
+  registry()[base + ":pack_dyn"] = [](const Op& o) { LL v = parseList(o.get("vals")); if (v.size() != E::rank_dynamic()) return std::string("bad-op"); return obsExt(FromPack<E, S, E::rank_dynamic()>::make(v)); };
+  registry()[base + ":array_all"] = [](const Op& o) { LL v = parseList(o.get("vals")); if (v.size() != E::rank()) return std::string("bad-op"); return obsExt(fromArray<E, S, E::rank()>(v)); };
+  registry()[base + ":array_dyn"] = [](const Op& o) { LL v = parseList(o.get("vals")); if (v.size() != E::rank_dynamic()) return std::string("bad-op"); return obsExt(fromArray<E, S, E::rank_dynamic()>(v)); };
+}
+template <class I> void regET(const std::string& tn) {
+  const size_t D = md::dynamic_extent;
+  regE<md::extents<I, D, 3, D>, I>(tn, "D,3,D"); regE<md::extents<I, 2, D, D>, I>(tn, "2,D,D"); regE<md::extents<I, D, D, 4>, I>(tn, "D,D,4");
+  regE<md::extents<I, D, 3>, I>(tn, "D,3"); regE<md::extents<I, D, D, D>, I>(tn, "D,D,D"); regE<md::extents<I, D, 3, D, D>, I>(tn, "D,3,D,D"); regE<md::extents<I, 2, 3>, I>(tn, "2,3");
+}
 int main() {
+  regET<int>("i32"); regET<unsigned char>("u8"); regET<long>("i64");
   regT<int>("i32"); regT<unsigned char>("u8"); regT<long>("i64"); regT<short>("i16"); regT<unsigned long>("u64");
   struct sigaction sa; memset(&sa, 0, sizeof sa); sa.sa_handler = onTrap; sigemptyset(&sa.sa_mask); sa.sa_flags = SA_NODEFER;
   sigaction(SIGILL, &sa, nullptr); sigaction(SIGFPE, &sa, nullptr); sigaction(SIGTRAP, &sa, nullptr);
@@ -79,6 +107,7 @@ int main() {
     o.ext = parseList(o.get("ext")); o.str = parseList(o.get("str"));
     if (!o.plain.empty()) o.op = o.plain[0]; if (o.plain.size() >= 2) o.arg = parseList(o.plain[1]);
     std::string key = o.tok.size() >= 3 ? o.tok[0] + ":" + o.tok[1] + ":" + o.tok[2] + ":" + o.get("pat") : std::string();
+    if (o.kv.count("k")) key += ":" + o.get("k");
     std::map<std::string, Fn>::iterator it = registry().find(key);
     if (it == registry().end()) { puts("no-inst"); continue; }
     if (sigsetjmp(g_jb, 1) == 0) puts(it->second(o).c_str()); else puts("ub");
